@@ -22,7 +22,8 @@ Fixpoint fold_res {A B} (f : A -> B -> PyLite.res A) (l : list B) (a : A) : PyLi
 
 Lemma for_loop_fold_res {A B} (env_of : A -> env) (g : B -> pv) (f : A -> B -> PyLite.res A) P cf lf t b :
   (forall a y,
-     (do e1 <- assign P cf (env_of a) t (g y); do o <- exec_block P cf lf e1 b; PyLite.Ok (iter_ok o))
+     (do e1 <- attach (env_of a) (assign P cf (env_of a) t (g y));
+      do o <- exec_block P cf lf e1 b; PyLite.Ok (iter_ok o))
      = do a' <- f a y; PyLite.Ok (Some (env_of a'))) ->
   forall l a,
     for_loop P cf lf t b (map g l) (env_of a) = do a' <- fold_res f l a; PyLite.Ok (ONorm (env_of a')).
@@ -30,11 +31,11 @@ Proof.
   intros H l. induction l as [|y r IH]; intros a; cbn [map fold_res].
   - apply for_loop_nil.
   - rewrite for_loop_cons. specialize (H a y).
-    destruct (assign P cf (env_of a) t (g y)) as [e1| | |]; cbn [bind] in *.
-    2-4: destruct (f a y); cbn [bind] in *; congruence.
-    destruct (exec_block P cf lf e1 b) as [o| | |]; cbn [bind] in *.
-    2-4: destruct (f a y); cbn [bind] in *; congruence.
-    destruct (f a y) as [a'| | |]; cbn [bind] in *; try discriminate.
+    destruct (assign P cf (env_of a) t (g y)) as [e1| | | |]; cbn [attach bind] in *.
+    2-5: destruct (f a y); cbn [bind] in *; congruence.
+    destruct (exec_block P cf lf e1 b) as [o| | | |]; cbn [bind] in *.
+    2-5: destruct (f a y); cbn [bind] in *; congruence.
+    destruct (f a y) as [a'| | | |]; cbn [bind] in *; try discriminate.
     destruct o; cbn [iter_ok loop_next] in *; inversion H; subst; apply IH.
 Qed.
 
@@ -120,17 +121,22 @@ Definition emb_res {A} (r : Frame.res A) : PyLite.res A :=
 
 Definition rng (k : nat) : pv := PInt (0 + Z.of_nat k).
 
-(** loop state: the accumulated [data] and the loop variable (absent before the first iteration) *)
-Definition en_step (l : list bool) (a : bytes * option pv) (k : nat) : PyLite.res (bytes * option pv) :=
+(** loop state: the accumulated [data] and the loop variable (absent before the first iteration).
+    [ef] embeds the loop state into environments: a raise in iteration [k] happens in the
+    environment of the state "[data] so far, loop variable [k]", and carries it. *)
+Definition en_step (l : list bool) (ef : bytes * option pv -> env) (a : bytes * option pv) (k : nat)
+  : PyLite.res (bytes * option pv) :=
   match nth_error l k with
   | Some b => PyLite.Ok ((fst a ++ [Request.b01 b])%list, Some (rng k))
-  | None => Exc "IndexError"
+  | None => ExcS "IndexError" (ef (fst a, Some (rng k)))
   end.
 
-Definition div_step (l : list Z) (a : bytes * option pv) (k : nat) : PyLite.res (bytes * option pv) :=
+Definition div_step (l : list Z) (ef : bytes * option pv -> env) (a : bytes * option pv) (k : nat)
+  : PyLite.res (bytes * option pv) :=
   match nth_error l k with
-  | Some z => if (0 <=? z) && (z <? 256) then PyLite.Ok ((fst a ++ [Z.to_N z])%list, Some (rng k)) else Exc "ValueError"
-  | None => Exc "IndexError"
+  | Some z => if (0 <=? z) && (z <? 256) then PyLite.Ok ((fst a ++ [Z.to_N z])%list, Some (rng k))
+              else ExcS "ValueError" (ef (fst a, Some (rng k)))
+  | None => ExcS "IndexError" (ef (fst a, Some (rng k)))
   end.
 
 Lemma skipn_nth_error_None {A} (l : list A) s : nth_error l s = None -> skipn s l = [].
@@ -143,35 +149,40 @@ Proof.
   - apply IH in H. rewrite H. destruct r; reflexivity.
 Qed.
 
-Lemma en_fold l : forall n s d o, exists o',
-  fold_res (en_step l) (seq s n) (d, o) =
-  do t <- emb_res (Request.en_bulk_bytes n (skipn s l)); PyLite.Ok ((d ++ t)%list, o').
+(** the whole loop: the model's bulk encoder; when that raises, the loop raises in the
+    environment of some loop state [(d', o')] *)
+Lemma en_fold l ef : forall n s d o, exists o' d',
+  fold_res (en_step l ef) (seq s n) (d, o) =
+  do t <- attach (ef (d', o')) (emb_res (Request.en_bulk_bytes n (skipn s l))); PyLite.Ok ((d ++ t)%list, o').
 Proof.
   induction n as [|n IH]; intros s d o.
-  - exists o. cbn. rewrite app_nil_r. reflexivity.
+  - exists o, d. cbn. rewrite app_nil_r. reflexivity.
   - cbn [seq fold_res Request.en_bulk_bytes]. unfold en_step at 1. cbn [fst].
     destruct (nth_error l s) as [b|] eqn:E.
     + rewrite (skipn_nth_error_Some l s b E). cbn [bind].
-      destruct (IH (S s) (d ++ [Request.b01 b])%list (Some (rng s))) as [o' Ho']. exists o'. eapply eq_trans; [exact Ho'|].
+      destruct (IH (S s) (d ++ [Request.b01 b])%list (Some (rng s))) as (o' & d' & Ho'). exists o', d'.
+      eapply eq_trans; [exact Ho'|].
       destruct (Request.en_bulk_bytes n (skipn (S s) l)); cbn; try reflexivity.
       rewrite <- app_assoc. destruct b; reflexivity.
-    + exists o. rewrite (skipn_nth_error_None l s E). reflexivity.
+    + exists (Some (rng s)), d. rewrite (skipn_nth_error_None l s E). reflexivity.
 Qed.
 
-Lemma div_fold l : forall n s d o, exists o',
-  fold_res (div_step l) (seq s n) (d, o) =
-  do t <- emb_res (Request.div_bulk_bytes n (skipn s l)); PyLite.Ok ((d ++ t)%list, o').
+Lemma div_fold l ef : forall n s d o, exists o' d',
+  fold_res (div_step l ef) (seq s n) (d, o) =
+  do t <- attach (ef (d', o')) (emb_res (Request.div_bulk_bytes n (skipn s l))); PyLite.Ok ((d ++ t)%list, o').
 Proof.
   induction n as [|n IH]; intros s d o.
-  - exists o. cbn. rewrite app_nil_r. reflexivity.
+  - exists o, d. cbn. rewrite app_nil_r. reflexivity.
   - cbn [seq fold_res Request.div_bulk_bytes]. unfold div_step at 1. cbn [fst].
     destruct (nth_error l s) as [z|] eqn:E.
     + rewrite (skipn_nth_error_Some l s z E). unfold Request.bytes1.
-      destruct ((0 <=? z) && (z <? 256)); cbn [bind Request.bind emb_res]; [|exists o; reflexivity].
-      destruct (IH (S s) (d ++ [Z.to_N z])%list (Some (rng s))) as [o' Ho']. exists o'. eapply eq_trans; [exact Ho'|].
+      destruct ((0 <=? z) && (z <? 256)); cbn [bind Request.bind emb_res attach];
+        [|exists (Some (rng s)), d; reflexivity].
+      destruct (IH (S s) (d ++ [Z.to_N z])%list (Some (rng s))) as (o' & d' & Ho'). exists o', d'.
+      eapply eq_trans; [exact Ho'|].
       destruct (Request.div_bulk_bytes n (skipn (S s) l)); cbn; try reflexivity.
       rewrite <- app_assoc. reflexivity.
-    + exists o. rewrite (skipn_nth_error_None l s E). reflexivity.
+    + exists (Some (rng s)), d. rewrite (skipn_nth_error_None l s E). reflexivity.
 Qed.
 
 Lemma py_index_map_rng {B} (g : B -> pv) l k :
